@@ -328,7 +328,7 @@ pub fn check_cs(n: usize, fill: u8) -> Vec<Finding> {
 const CHARS: [&str; 8] = ["a", "é", "€", "😀", "\u{13b}", "\u{23d}", ";", "="];
 
 pub fn run(ctx: &Ctx) {
-    ctx.set_rule("strings a^n·c·t (n around 0, 254/255, 508/510 and 762/765; c and tails over {a,é,€,😀,U+013B,U+023D,;,=}) through split/join in memory and over the wire; all attribute maps of <=3 entries over 3 keys x 6 values plus 254/255/256-byte entries; all raw string lists of <=3 strings over a small alphabet for attributes(); all strings of length <= L over {a,;,=,U+013B,U+023D} through long_attributes; byte strings of every length 0..=300 through every constructor. non-trivial = the case exercises chunking (>=254 bytes), a non-empty map, a separator character, or a boundary length 250..=260");
+    ctx.set_rule("strings a^n·c·t (n around 0, 254/255, 508/510 and 762/765; c and tails over {a,é,€,😀,U+013B,U+023D,;,=}) through split/join in memory and over the wire; all attribute maps of <=3 entries over 3 keys (two differing only in letter case) x 6 values plus 254/255/256-byte entries; all raw string lists of <=3 strings over a small alphabet for attributes(); all strings of length <= L over {a,A,;,=,U+013B,U+023D} through long_attributes; byte strings of every length 0..=300 through every constructor. non-trivial = the case exercises chunking (>=254 bytes), a non-empty map, a separator character, or a boundary length 250..=260");
     ctx.assume("RFC 6763 6.4 reading of attributes: split at the first '=', strings with an empty key are ignored; Unicode scalar values compared as characters");
     let thorough = ctx.tier == crate::engine::Tier::Thorough;
     // space 1: split/join
@@ -365,7 +365,7 @@ pub fn run(ctx: &Ctx) {
     ctx.violations(check_split(""));
     ctx.sample(json!({"kind": "split", "s": format!("{}é😀", "a".repeat(253))}));
     // space 2: attribute maps
-    let keys = ["k", "j", "kk"];
+    let keys = ["k", "K", "kk"];
     let long250 = "v".repeat(250);
     let values: Vec<Option<String>> = vec![None, Some("".into()), Some("v".into()), Some("a=b".into()), Some(";".into()), Some(long250)];
     let mut maps: Vec<Vec<(String, Option<String>)>> = vec![vec![]];
@@ -403,7 +403,7 @@ pub fn run(ctx: &Ctx) {
     ctx.space("attribute maps: every assignment of {absent,None,\"\",v,a=b,;,250 bytes} to keys {k,j,kk} + 18 boundary-length entries", maps.len() as u64, "complete");
     ctx.sample(json!({"kind": "map", "entries": [["j", null], ["k", ""], ["kk", "a=b"]]}));
     // space 3: raw string lists (duplicates, empty keys, order)
-    let atoms = ["k", "k=", "k=1", "k=2", "j=1", "=v", "", "k=a=b"];
+    let atoms = ["k", "k=", "k=1", "k=2", "K=3", "=v", "", "k=a=b"];
     let mut lists: Vec<Vec<String>> = vec![vec![]];
     for a in atoms {
         lists.push(vec![a.to_string()]);
@@ -428,8 +428,8 @@ pub fn run(ctx: &Ctx) {
     ctx.sample(json!({"kind": "strings", "strings": ["k=1", "k=2"]}));
     ctx.merge(t);
     // space 4: long_attributes
-    let la = ["a", ";", "=", "\u{13b}", "\u{23d}"];
-    let l = ctx.tier.pick(6usize, 7usize);
+    let la = ["a", "A", ";", "=", "\u{13b}", "\u{23d}"];
+    let l = ctx.tier.pick(5usize, 6usize);
     let shards: Vec<String> = la.iter().flat_map(|a| la.iter().map(move |b| format!("{}{}", a, b))).collect();
     let total = std::sync::atomic::AtomicU64::new(0);
     par_shards(ctx, &shards, |prefix, t: &mut Tally| {
@@ -455,11 +455,11 @@ pub fn run(ctx: &Ctx) {
         total.fetch_add(n, std::sync::atomic::Ordering::Relaxed);
     });
     let mut t = Tally::default();
-    for s in ["", "a", ";", "=", "\u{13b}", "\u{23d}"] {
+    for s in ["", "a", "A", ";", "=", "\u{13b}", "\u{23d}"] {
         t.evals += 1;
         ctx.violations(check_long(s));
     }
-    ctx.space(&format!("long_attributes: all strings of length <= {} over {{a,;,=,U+013B,U+023D}}", l), total.load(std::sync::atomic::Ordering::Relaxed) + 6, "complete");
+    ctx.space(&format!("long_attributes: all strings of length <= {} over {{a,A,;,=,U+013B,U+023D}}", l), total.load(std::sync::atomic::Ordering::Relaxed) + 6, "complete");
     ctx.sample(json!({"kind": "long", "s": "a=\u{13b};a\u{23d}=a"}));
     // space 5: character-string construction
     for n in 0..=300usize {
